@@ -56,7 +56,7 @@ def run(cmd, **kw):
 
 
 def build(outdir, san="asan", hooks=False, nosse=False, harness_srcs=(), harness_name="engine",
-          harness_defs=(), harness_nosan=()):
+          harness_defs=(), harness_nosan=(), harness_libs=("liberasurecode.so.1", "libXorcode.so.1", "liberasurecode_rs_vand.so.1")):
     """Compile the four shared objects, the reference ISA-L plug-in and one harness executable."""
     os.makedirs(outdir, exist_ok=True)
     for f in os.listdir(outdir):
@@ -98,14 +98,15 @@ def build(outdir, san="asan", hooks=False, nosse=False, harness_srcs=(), harness
     run(["gcc", "-shared", "-Wl,-soname,libisal.so.2"] + sanf + [isal_o, "-o", os.path.join(outdir, "libisal.so.2")])
     lib = "liberasurecode.so.1"
     run(["gcc", "-shared", "-Wl,-soname," + lib, WRAP] + sanf + objs[lib] +
-        ["-L" + outdir, "-l:libnullcode.so.1", "-l:libXorcode.so.1", "-l:liberasurecode_rs_vand.so.1",
+        # as the project's own link line: only libXorcode is a dependency; the null, rs_vand and isa-l libraries are reached by dlopen
+        ["-L" + outdir, "-l:libXorcode.so.1",
          "-lpthread", "-lm", "-lz", "-ldl", "-o", os.path.join(outdir, lib)])
     exe = None
     if hobjs:
         exe = os.path.join(outdir, harness_name)
         run(["gcc", "-rdynamic"] + sanf + hobjs +
-            ["-L" + outdir, "-l:liberasurecode.so.1", "-l:libXorcode.so.1", "-l:liberasurecode_rs_vand.so.1",
-             "-Wl,-rpath," + outdir, "-lpthread", "-lm", "-lz", "-ldl", "-o", exe])
+            ["-L" + outdir] + ["-l:" + l for l in harness_libs] +
+            ["-Wl,-rpath," + outdir, "-lpthread", "-lm", "-lz", "-ldl", "-o", exe])
     for o in sum(objs.values(), []) + hobjs + [isal_o]:
         os.unlink(o)
     return exe
